@@ -315,6 +315,7 @@ func (t *Transport) run() {
 	for {
 		select {
 		case <-ticker.C:
+			vhook("t.tick.gate", t, nil, 0, 0)
 			t.now = time.Now()
 			t.connsMu.Lock()
 			vhook("t.tick", t, nil, vnano(t.now), 0)
